@@ -223,7 +223,7 @@ impl Property for C03 {
     }
     fn generate(&self, tier: Tier, seed: u64) -> Vec<Value> {
         let cfg = gs::Cfg::faithful();
-        gen::draw(seed, "C03", tier.pick(350, 12000), move |g| gen_value_case(g, &cfg, "rt", 8, 0, "F"))
+        gen::draw(seed, "C03", tier.pick(700, 14000), move |g| gen_value_case(g, &cfg, "rt", 8, 0, "F"))
     }
     fn prepare(&self, case: &Value) -> Unit {
         prepare_values(case, &want_serde, &["rt"]).unit
